@@ -44,6 +44,7 @@ class AbiWorld:
                 if ok and isinstance(c, (int, str, tuple, list, frozenset, set, bytes)):
                     self.consts.setdefault(k, c)
         self.instances: Dict[str, Sym] = {}
+        self.real_classes: set = set()
         self.me = MiniEval(self.oracle(), "abi-world", permissive=True, resolver=self.resolver)
         self.setup(self.me)
 
@@ -54,8 +55,14 @@ class AbiWorld:
         c = self.model.find_class(cname)
         s = Sym("class:" + cname, attrs={"classname": cname, "$class": c})
         s.methods["__call__"] = lambda *a, **k: self.construct(cname, list(a), k)
-        # classmethods / staticmethods are not needed for the descriptors
         self.class_syms[cname] = s
+        for k in reversed(self.model.mro(c)):
+            for nm, fi in k.methods.items():
+                decs = fi.decorators()
+                if "classmethod" in decs:
+                    s.methods[nm] = (lambda fi: lambda *a, **kw: self.me.call_def(fi.node, [s] + list(a), dict(kw), {"$cls": fi.cls}))(fi)
+                elif "staticmethod" in decs:
+                    s.methods[nm] = (lambda fi: lambda *a, **kw: self.me.call_def(fi.node, list(a), dict(kw), {"$cls": fi.cls}))(fi)
         return s
 
     def construct(self, cname: str, args: list, kwargs: dict) -> Sym:
@@ -126,7 +133,7 @@ class AbiWorld:
             if isinstance(e, ast.Name):
                 if e.id in self.consts:
                     return self.consts[e.id]
-                if e.id.endswith("TypeSpec") and self.model.try_class(e.id) is not None:
+                if (e.id.endswith("TypeSpec") or e.id in self.real_classes) and self.model.try_class(e.id) is not None:
                     return self.class_sym(e.id)
                 c = self.model.try_class(e.id)
                 if c is not None and any(b.split(".")[-1] in ("Enum", "IntEnum", "Flag", "IntFlag") for b in c.base_exprs):
